@@ -9,6 +9,7 @@ Search: sheets from the grammar G x random respellings of every eligible token, 
 extractor; single declarations and selectors as well (smaller, so rarer positions are hit more often).
 """
 import random
+import re
 import sys
 import time
 
@@ -35,7 +36,8 @@ def spell_name(rnd, name):
             if rnd.random() < 0.4:
                 h = h.upper()
             h = '0' * rnd.randint(0, 6 - len(h)) + h
-            if len(h) == 6 and rnd.random() < 0.5:
+            if (len(h) == 6 or (nxt and nxt not in '0123456789abcdefABCDEF \t\n\r\f')) and rnd.random() < 0.5:
+                # (six digits, or a next character that is neither a hex digit nor CSS white space, end the escape)
                 term = ''
             else:
                 term = rnd.choice([' ', '\t', '\n', '\f', '\r'])
@@ -48,7 +50,9 @@ def spell_name(rnd, name):
 
 
 NAMES = ['media', 'import', 'color', 'font-family', 'important', 'url', 'nth-child', 'px', 'deg', 'not', 'first-line', 'x-fn',
-         'calc', 'rgb', 'abcdef', 'page', 'a0-_z', 'em', 'bad', 'decade', 'f00d', 'namespace', 'charset']
+         'calc', 'rgb', 'abcdef', 'page', 'a0-_z', 'em', 'bad', 'decade', 'f00d', 'namespace', 'charset',
+         # name characters that are white space for Python's \\s / str.strip but not for CSS
+         'a\xa0b', 'x\u3000y', 'q\u2028z', 'na\x85me', 'e\u2003m', 'b\xa0', 'c\u1680d']
 
 
 def dec_cases(tier, seed):
@@ -70,7 +74,8 @@ def dec_cases(tier, seed):
 
 
 def _repl(m):
-    num = int(m.group(0)[1:], 16)
+    # (only a filter for the generated texts: it must not fail whatever the pattern under test matches)
+    num = int(re.match('[0-9a-fA-F]{1,6}', m.group(0)[1:]).group(0), 16)
     return chr(num) if num <= sys.maxunicode else m.group(0)
 
 
